@@ -55,7 +55,7 @@ def histories_simulated(c, depth, num, load=False):
 
 def random_histories(c, n, length):
     """Histories longer than the exhaustive bound, drawn from the same operation alphabet."""
-    data = {"sha256": ["h1", "h2", "h31"], "x509": ["c1", "c2", "c3", "p1", "p3", "p1b", "p3n"], "sha1": ["s1"], "bogus": ["u1"], "extern": ["e1"]}
+    data = {"sha256": ["h1", "h2", "h31"], "x509": ["c1", "c2", "c3", "p1", "p3", "p1b", "p3n"], "sha1": ["s1", "h1"], "bogus": ["u1"], "extern": ["e1"]}
     hs = []
     for _ in range(n):
         ops, have_sl, sl_t, sl_n = [], False, None, 0
@@ -223,7 +223,7 @@ def run(c):
         raise vf.FrameworkError("canary: corrupted trace was accepted - binding broken")
     c.cov["canary_rejected"] = True
     c.assumptions += ["independent ESL reader (harness/cmd/worker/eslproj.go) is the projection from Bytes() to the abstract database",
-                      "type-disjoint data universes (no data value is used under two signature types)"]
+                      "one data value (h1) is used under two signature types; the others are type-disjoint"]
 
 
 def classify(e, prev):
